@@ -37,7 +37,11 @@ def main():
     os.makedirs("/tmp/seedrun", exist_ok=True)
     subprocess.run(["git", "-C", "/repo", "worktree", "add", "-q", "--detach", wt, "HEAD"], check=True)
     try:
-      subprocess.run(["git", "-C", wt, "apply", os.path.join(d, "patch.diff")], check=True)
+      ap = subprocess.run(["git", "-C", wt, "apply", os.path.join(d, "patch.diff")])
+      if ap.returncode != 0:
+        print("%s: patch.diff does not apply to /repo HEAD - re-generate it" % sid, flush=True)
+        results.setdefault(sid, {"property": meta["property"], "runs": {}})["runs"] = {"-": {"rc": -1, "violations": 0, "first": "patch does not apply", "wall_s": 0, "tier": args.tier}}
+        continue
       checks = claimed if args.all else meta.get("checks", [meta["property"]])
       out = results.setdefault(sid, {"property": meta["property"], "runs": {}})
       for p in checks:
